@@ -38,8 +38,8 @@ theorem readVarlena_enc (short : Bool) (d : Bytes) (h1 : 1 ≤ d.length) (h2 : d
       Nat.shiftRight_eq_div_pow]
     have e1 : (2 * (d.length + 1) + 1) / 2 ^ 1 = d.length + 1 := by omega
     rw [e1]
-    have c : (decide (d.length + 1 ≤ 1) || decide (d.length + 1 < d.length + 1)) = false := by
-      have a : ¬ d.length + 1 ≤ 1 := by omega
+    have c : (decide (d.length + 1 < 1) || decide (d.length + 1 < d.length + 1)) = false := by
+      have a : ¬ d.length + 1 < 1 := by omega
       simp [a]
     simp only [c, Bool.false_eq_true, if_false]
     rw [slice_ok _ _ _ (by simp) (by omega)]
